@@ -19,7 +19,8 @@ _GEN = {}
 
 
 # identifiers are atoms in SigDoc.tla; the strings drawn for them may extend one another ("a" and "a-x"): style of the case
-IDSTYLE = {'plain': {}, 'extends_a': {'x': 'a-x'}, 'extends_r': {'x': 'r-x'}}
+IDSTYLE = {'plain': {}, 'extends_a': {'x': 'a-x'}, 'extends_r': {'x': 'r-x'},
+           'digit': {'x': '9x'}}          # not an NCName (a digit first): still an identifier the tool is asked for by name
 _IDMAP = {}
 
 
@@ -225,14 +226,14 @@ def main():
     idtwins = []
     for c in cases:
         tree = dict((nd['n'], nd) for nd in c['tree'])
-        hit = [tree[k2]['orig'] for nd in c['tree'] if nd['id'] == 'x' for k2 in nd['kids'] if tree[k2]['kind'] == 'Sig' and tree[k2]['orig'] in ('A', 'R')]
+        hit = [tree[k2]['orig'] for nd in c['tree'] if nd['id'] == 'x' for k2 in nd['kids'] if tree[k2]['kind'] == 'Sig' and tree[k2]['orig'] in ('A', 'R', 'X')]
         if hit:
-            want = 'extends_a' if 'A' in hit else 'extends_r'
-            if c['idstyle'] != want:
-                t = dict(c)
-                t['idstyle'] = want
-                t['tool'] = []
-                idtwins.append(t)
+            for want in ('extends_a' if ('A' in hit or 'X' in hit) else 'extends_r', 'digit'):
+                if c['idstyle'] != want:
+                    t = dict(c)
+                    t['idstyle'] = want
+                    t['tool'] = []
+                    idtwins.append(t)
     cases = cases + twins + idtwins
     nacc = 0
     tool_checked = 0
